@@ -22,6 +22,8 @@ func init() {
 }
 
 func runC07(c *Ctx) {
+	c.R.Rule("RS-no-request-time-state", "request handling writes no state that outlives the request (package-level variables, objects built at start-up, constructor variables captured by handlers) declared in the packages implementing this property", 1)
+	runStateless(c, "RS-no-request-time-state", "pkg/header", "pkg/middleware")
 	r := c.R
 	r.Rule("R1-same-list-strip-first", "strip and inject built from the same list, strip first, strip dropped only when nil", 2)
 	r.Rule("R2-strip-semantics", "collect Name iff !PreserveRequestValue; strip = Header.Del on the request for every collected name, before next", 5)
